@@ -1,6 +1,7 @@
 import PedVerif.Lemmas.CallLayer4
 import PedVerif.Lemmas.CheckerEnvs
 import PedVerif.Props.GenWrap
+import PedVerif.Lemmas.CallLayer5
 /-!
 # C04 — @pedantic is transparent for conforming keyword calls
 
@@ -176,6 +177,27 @@ theorem header_flags_ignore_body (name s s' : String) (h : headerOf s = headerOf
     (flagsOfSource name s).numDecorators = (flagsOfSource name s').numDecorators := by
   have hs : staticInHeader = true ∧ setterInHeader = true ∧ pedanticInHeader = true := by decide
   simp only [flagsOfSource, scopeOf, hs.1, hs.2.1, hs.2.2, ↓reduceIte, h, and_self]
+/-- **C04 (body text), keyword calls: full strength.**  Take two source texts with the same decorator lines (the text in
+    front of the first `def`) - the body, comments and docstring may differ arbitrarily.  A call that passes nothing
+    positionally (beyond the implicit self / cls) and every required declared parameter by keyword has exactly the same
+    outcome for both: checking depends on the signature, the annotations and the decorator lines only. -/
+theorem body_text_irrelevant_for_keyword_calls (env : Env) (orc : Nat → Val → Raw) (f : Fn) (s s' : String) (args : List Val)
+    (kw : List (NameId × Val)) (body : BodyOut) (hhead : headerOf s = headerOf s')
+    (hpos : (({ f with flags := flagsOfSource f.name s } : Fn).argsWithoutSelf args).isEmpty = true)
+    (hreq : requiredByKeyword kw f.plain) :
+    runCall env orc { f with flags := flagsOfSource f.name s } args kw body =
+    runCall env orc { f with flags := flagsOfSource f.name s' } args kw body := by
+  obtain ⟨h1, h2, h3, h4⟩ := header_flags_ignore_body f.name s s' hhead
+  have hfl : flagsOfSource f.name s' = { flagsOfSource f.name s with wantsArgs := (flagsOfSource f.name s').wantsArgs } := by
+    cases hs : flagsOfSource f.name s; cases hs' : flagsOfSource f.name s'
+    simp only [hs, hs'] at h1 h2 h3 h4
+    simp only [SrcFlags.mk.injEq, true_and]
+    exact ⟨h1.symm, h2.symm, h3.symm, h4.symm⟩
+  have : ({ f with flags := flagsOfSource f.name s' } : Fn) =
+      ({ f with flags := flagsOfSource f.name s } : Fn).withWantsArgs (flagsOfSource f.name s').wantsArgs := by
+    simp only [Fn.withWantsArgs]; rw [hfl]
+  rw [this, runCall_withWantsArgs env orc _ _ args kw body hpos hreq]
+
 /-- … e.g. a comment containing `@staticmethod` in a plain function no longer turns the conforming keyword call `f(a=1)`
     into an IndexError -/
 theorem body_text_example :
